@@ -64,6 +64,11 @@ def scenarios(tier):
         for order in ('lenient-first', 'strict-first'):
             for pat in ('obedient', 'stubborn'):
                 out.append(Scenario('two', hook=h, order=order, pat=pat, nodet=True))
+    # hooks installed at run time through the set command (dotted names resolved by circus), then start
+    for h in START4:
+        for o in (False, 'raise'):
+            for flag in (False, True):
+                out.append(Scenario('runtime', hook=h, out=o, flag=flag, nodet=True))
     return out
 
 
@@ -86,6 +91,53 @@ def _hook(world, name, outcome):
             raise RuntimeError('hook %s raises' % hook_name)
         return outcome
     return hook
+
+
+RUNTIME_LOG = []
+
+
+def rt_false(watcher, arbiter, hook_name, **kw):
+    RUNTIME_LOG.append((watcher.name, hook_name, False))
+    return False
+
+
+def rt_raise(watcher, arbiter, hook_name, **kw):
+    RUNTIME_LOG.append((watcher.name, hook_name, 'raise'))
+    raise RuntimeError('hook raises')
+
+
+def _run_runtime(scn, ch, res):
+    del RUNTIME_LOG[:]
+    world = World(ch, [WSpec('a', numprocesses=1, graceful_timeout=G, autostart=False)])
+    try:
+        world.boot()
+        world.run(until=lambda w: w.boot_future.done(), horizon=5)
+        fn = 'props.c14.rt_false' if scn.out is False else 'props.c14.rt_raise'
+        rq = world.request('set', name='a', options={'hooks.%s' % scn.hook: '%s,%s' % (fn, 'true' if scn.flag else 'false')})
+        res.check('C14.accepted', rq.ok(), lambda: 'set hooks.%s refused: %r' % (scn.hook, rq.reply()), where='commands.set')
+        world.run(until=lambda w: w.slot() is None, horizon=2)
+        world.request('start', name='a')
+        world.run(until=lambda w: w.slot() is None and not w.stopping_processes(), horizon=4 * G + 2.0)
+        world.run(horizon=G + 0.2)
+        wa = world.watcher('a')
+        st = wa.status()
+        alive = [p.pid for p in world.procs_of('a') if p.state in (RUNNING, ZOMBIE)]
+        expect_abort = not eff(scn.out, scn.flag)
+        called = [x for x in RUNTIME_LOG if x[1] == scn.hook]
+        res.check('C14.runtime_hook_called', bool(called), lambda: 'hook %s set at run time was never called by the start' % scn.hook,
+                  where='watcher.set_opt/hooks')
+        if expect_abort:
+            res.check('C14.start_aborted', st == 'stopped' and not alive,
+                      lambda: 'hook %s=%r (ignore=%s) installed with set: the start must abort, status %r alive %s'
+                      % (scn.hook, scn.out, scn.flag, st, alive), where='watcher.set_opt/hooks')
+        else:
+            res.check('C14.start_not_aborted', st == 'active' and len(alive) == 1,
+                      lambda: 'hook %s raises with the ignore flag set through set: the start must go on, status %r alive %s'
+                      % (scn.hook, st, alive), where='watcher.set_opt/hooks')
+        res.outcome = digest([scn.hook, repr(scn.out), scn.flag, st, len(alive)])
+        return finish(world, res)
+    except Abort as e:
+        return finish(world, res, aborted=str(e))
 
 
 def _run_two(scn, ch, res):
@@ -125,6 +177,8 @@ def run(scn, ch):
     res = Result()
     if scn.name == 'two':
         return _run_two(scn, ch, res)
+    if scn.name == 'runtime':
+        return _run_runtime(scn, ch, res)
     if scn.name == 'start4':
         names = START4
     else:
